@@ -5,7 +5,7 @@
 (*   value  [k, v, s, c]: k in int | str | null | coll (collections, pairs, *)
 (*          tuples, maps) | opaque (n = v bytes) | custom (printer<T>) |    *)
 (*          streamable (operator<<)                                         *)
-(*   state  [base, fill, width, adj]                                        *)
+(*   state  [base, fill, width, adj, xf]  (xf: showbase|uppercase|showpos|boolalpha set) *)
 (***************************************************************************)
 EXTENDS Integers, Sequences, TLC
 
@@ -42,5 +42,5 @@ HasCustom(v) == v.k = "custom" \/ \E i \in 1..Len(v.c) : HasCustom(v.c[i])
 \* is the output specified for value v printed to a stream in state s ?
 Specified(v, s) ==
   \/ Leafish(v)
-  \/ (s.width = 0 /\ (~HasCustom(v) \/ s.base = 0))   \* padding of braces / nullptr under a width, and what a user printer does with flags, is not specified
+  \/ (s.width = 0 /\ (~HasCustom(v) \/ (s.base = 0 /\ s.xf = 0)))   \* padding of braces / nullptr under a width, and what a user printer does with flags, is not specified
 =============================================================================
